@@ -13,7 +13,8 @@ RULE = ("Cases = (encoded array as in C14, index) with index in {int in [-n, n) 
         "start/stop in None or [-n-3, n+3] and step in None, +-1, +-2, +-3, +-5, +-n, pair of start/stop vectors (0-5 non-empty "
         "windows)}.  Oracle = a[index] on the dense array; result kind scalar / dense array / RunLengthArray / ragged run-length "
         "array (decoded row by row).  Non-trivial = a slice bound outside [-n, n], a negative or non-unit step, or an index "
-        "landing on a run boundary.")
+        "landing on a run boundary."
+        "  Masks also derived by the library itself by comparing a run-length array (neighbouring runs share a truth value).")
 ASSUMPTIONS = ["out-of-range integer indices are not claimed by the property and not asserted"]
 
 
@@ -53,7 +54,17 @@ def body_list(case, ctx):
     ctx.nt(any((k % n) in bounds for k in idx))
     obj = list(idx) if case["as"] == "list" else np.array(idx, dtype=case["as"])
     exp = a[np.array(idx, dtype=np.int64)]
-    expect_array(lib(lambda: x[obj]), exp, "list-index", idx=idx)
+    sh = case.get("shape")
+    if sh and len(idx) >= 2 and len(idx) % 2 == 0:
+        # the same positions as a 2-D index (nested list / 2-D array): the result has the index's shape, as in numpy
+        shape = (2, len(idx) // 2) if sh == "2xk" else (len(idx) // 2, 2)
+        ctx.label("index-shape:" + sh)
+        obj = np.array(idx, dtype=np.int64 if case["as"] == "list" else case["as"]).reshape(shape)
+        exp = exp.reshape(shape)
+        if case["as"] == "list":
+            obj = obj.tolist()
+    ctx.label("more-entries-than-runs" if len(idx) > rl.n_runs(a) else "fewer-entries-than-runs")
+    expect_array(lib(lambda: x[obj]), exp, "list-index", idx=idx, shape=sh)
 
 
 def body_mask(case, ctx):
@@ -150,8 +161,9 @@ def idx_case(draw, tier, kind):
         case["np"] = draw(st.booleans())
         case["form"] = draw(st.sampled_from(["plain", "plain", "tuple1", "ell-i", "i-ell"]))
     elif kind == "list":
-        case["idx"] = draw(st.lists(st.integers(0, 10**6), max_size=8))
+        case["idx"] = draw(st.one_of(st.lists(st.integers(0, 10**6), max_size=8), st.lists(st.integers(0, 10**6), min_size=4, max_size=24)))
         case["as"] = draw(st.sampled_from(["list", "int64", "int64", "int32", "intp"]))
+        case["shape"] = draw(st.sampled_from([None, None, "2xk", "kx2"]))
     elif kind == "mask":
         case["mask"] = draw(st.one_of(rl.runs("bool", tier), st.just([[False, 1]]), st.just([[True, 1]])))
         case["as"] = draw(st.sampled_from(["array", "list", "rl", "rl", "rl-derived"]))
